@@ -86,6 +86,36 @@ func (c *WebsocketNetConn) Write(bs []byte) (count int, err error) {
 	return len(bs), nil
 }
 
+// CloseWrite implements the half-close of the net.TCPConn type: it tells the peer
+// that no more data will be written (by sending a websocket close message) while
+// leaving the other direction of the connection usable.
+func (c *WebsocketNetConn) CloseWrite() error {
+	return c.WriteControl(websocket.CloseMessage, websocket.FormatCloseMessage(websocket.CloseNormalClosure, ""), time.Now().Add(time.Second))
+}
+
+// newWebsocketNetConn wraps the given websocket connection.
+//
+// A close message from the peer only ends the stream we read from the peer. We
+// do not answer it with a close message of our own (which is what the default
+// close handler does), as that would also end the stream we are still writing.
+func newWebsocketNetConn(conn *websocket.Conn) *WebsocketNetConn {
+	conn.SetCloseHandler(func(int, string) error { return nil })
+	return &WebsocketNetConn{Conn: conn}
+}
+
+// CloseWrite signals the end of the data written to the given connection to its
+// peer, so that a close of one end of a bridged connection reaches the other end.
+//
+// If the connection does not support that, it is closed entirely.
+func CloseWrite(conn net.Conn) {
+	if cw, ok := conn.(interface{ CloseWrite() error }); ok {
+		if err := cw.CloseWrite(); err == nil {
+			return
+		}
+	}
+	conn.Close()
+}
+
 // DialWebsocket establishes a connection with the given server using websocket as the
 // underlying transport layer.
 func DialWebsocket(ctx context.Context, backendURL *url.URL, h http.Header) (net.Conn, error) {
@@ -93,7 +123,7 @@ func DialWebsocket(ctx context.Context, backendURL *url.URL, h http.Header) (net
 	if err != nil {
 		return nil, fmt.Errorf("unable to dial websocket: %w", err)
 	}
-	return &WebsocketNetConn{Conn: conn}, nil
+	return newWebsocketNetConn(conn), nil
 }
 
 // Handler returns an HTTP handler that forwards bridged TCP connections to the given port.
@@ -120,7 +150,7 @@ func Handler(backendPort int, passthroughHandler http.Handler) http.Handler {
 			return
 		}
 		defer wsConn.Close()
-		frontendConn := &WebsocketNetConn{Conn: wsConn}
+		frontendConn := newWebsocketNetConn(wsConn)
 
 		backendConn, err := net.Dial("tcp", backendHost)
 		if err != nil {
@@ -134,10 +164,12 @@ func Handler(backendPort int, passthroughHandler http.Handler) http.Handler {
 		go func() {
 			defer wg.Done()
 			io.Copy(backendConn, frontendConn)
+			CloseWrite(backendConn)
 		}()
 		go func() {
 			defer wg.Done()
 			io.Copy(frontendConn, backendConn)
+			CloseWrite(frontendConn)
 		}()
 		wg.Wait()
 	})
